@@ -72,6 +72,14 @@ func gvNum(v float64, scale float64) genVal {
 	return genVal{"t": "num", "n": int(r)}
 }
 
+// gvFloor: a number rounded down to 1/scale (a monotone projection, unlike "exact or opaque").
+func gvFloor(v float64, scale float64) genVal {
+	if math.IsInf(v, 1) {
+		return genVal{"t": "num", "n": -1}
+	}
+	return genVal{"t": "num", "n": int(math.Floor(v * scale))}
+}
+
 func gvSet(s maptile.Set, err error) genVal {
 	if err != nil {
 		return gvErr(err)
@@ -230,6 +238,16 @@ var genFns = []genFn{
 	{name: "planar.DistanceFrom", gen: func(g orb.Geometry) genVal {
 		d := planar.DistanceFrom(g, orb.Point{5, -1})
 		return gvNum(d*d, 1)
+	}},
+	// query points inside the shapes' bounds, off the grid (squared distance rounded down to 1e-6: rounding down is
+	// monotone, so the minimum over members still is the collection's value)
+	{name: "planar.DistanceFrom.in", gen: func(g orb.Geometry) genVal {
+		d := planar.DistanceFrom(g, orb.Point{1.5, 0.5})
+		return gvFloor(d*d, 1e6)
+	}},
+	{name: "planar.DistanceFromWithIndex.in", gen: func(g orb.Geometry) genVal {
+		d, _ := planar.DistanceFromWithIndex(g, orb.Point{0.75, 1.25})
+		return gvFloor(d*d, 1e6)
 	}},
 	{name: "planar.DistanceFromWithIndex", gen: func(g orb.Geometry) genVal {
 		d, _ := planar.DistanceFromWithIndex(g, orb.Point{1, 1})
